@@ -26,6 +26,9 @@ BAD_TEXTS = {
     'no-header-illegal': '<html><body>404 Not Found</body></html>\n',
     'no-header-lower': 'all: build\n\tcc -o x x.c\n',
     'name-only': '\n\nAAA-MIB\n',
+    # no line feed anywhere before the place where the lexer stops
+    'cr-only-error': 'AAA-MIB DEFINITIONS ::= BEGIN\r\rx OBJECT IDENTIFIER ::= { y 1 }\r@ oops\rEND\r',
+    'one-line-comment': '-- just a comment, no line break after it',
     'multiline-string-then-error': 'AAA-MIB DEFINITIONS ::= BEGIN\nx OBJECT-TYPE SYNTAX INTEGER MAX-ACCESS read-only STATUS current DESCRIPTION "a\nb\nc\nd" ::= { y 1 }\n@\nEND\n',
 }
 
@@ -100,6 +103,7 @@ class Instances(object):
         self.roots = []
         self.fs = {}            # fs histories: root, compiler with real components, mutations so far
         self.is_fresh = False
+        self.cache_dir = None
 
     def close(self):
         for r in self.roots:
@@ -118,6 +122,9 @@ class Instances(object):
                 # generated once per process instead of recomputing them (2 ms instead of 160 ms per parser)
                 with fast_tables():
                     self.parsers[d] = klass()
+            elif self.cache_dir:
+                # as the scripts do: a grammar-table cache directory, here one shared by the parsers of all dialects
+                self.parsers[d] = klass(tempdir=self.cache_dir)
             else:
                 self.parsers[d] = klass()
         return self.parsers[d]
@@ -260,6 +267,9 @@ def run_history(hist):
         hroot = core.new_root('hfs')
     w = core.World(root=hroot, clock=core.EPOCH0, listing_seed=hist.get('listing_seed'), step_cap=400000)
     long_lived = Instances()
+    if hist.get('table_cache'):
+        long_lived.cache_dir = core.new_root('ptc')
+        long_lived.roots.append(long_lived.cache_dir)
     recs = []
     long_results = []
     results_by_op = {}
